@@ -501,6 +501,22 @@ fn main() {
         let out = run_program(&text);
         rep.case(Some(format!("pd{:016x}", w)));
         rep.bump("program.cvd-mkd-bytes");
+        // since /repo 181b08f CVD raises Overflow (6) for the 8-byte strings that encode an infinity or a NaN: a DOUBLE
+        // only ever holds a finite number (C06), and C19 claims CVD(MKD$(x)) = x for finite x only
+        if (w >> 52) & 0x7ff == 2047 {
+            rep.bump("program.cvd-mkd-bytes.non-finite-pattern");
+            if !(out.starts_with("runtime-error") && out.contains("Overflow") && out.contains("row: 2")) {
+                rep.fail(Failure {
+                    kind: Kind::ImplVsProperty,
+                    signature: "program:cvd-non-finite".into(),
+                    input: text.clone(),
+                    implementation: out,
+                    expected: "runtime error Overflow at the CVD statement (row 2)".into(),
+                    note: "8 bytes that encode an infinity or a NaN are not a value of a DOUBLE: CVD raises Overflow".into(),
+                });
+            }
+            continue;
+        }
         let expected = "-1  8 -1 -1";
         if out != expected {
             rep.fail(Failure {
